@@ -197,6 +197,13 @@ impl TaskManager {
 		}
 	}
 
+	/// Tells both tasks to end without waiting for them (`stop` waits).
+	fn signal_stop(&self) {
+		self.stop_flag.store(true, Ordering::SeqCst);
+		self.memtable_notify.notify_one();
+		self.level_notify.notify_one();
+	}
+
 	pub(crate) fn wake_up_memtable(&self) {
 		#[cfg(feature = "verif")]
 		if crate::verif::manual_background() {
@@ -254,6 +261,16 @@ impl TaskManager {
 				log::error!("Error shutting down task: {e:?}");
 			}
 		}
+	}
+}
+
+// The tasks hold the store's core (and with it the directory lock). A task manager
+// that goes away without `stop()` - an open that fails after the tasks were spawned -
+// must not leave them waiting for a notification that never comes: the directory
+// would stay locked for the rest of the process.
+impl Drop for TaskManager {
+	fn drop(&mut self) {
+		self.signal_stop();
 	}
 }
 
